@@ -817,6 +817,13 @@ reprocess:
 			int arg_int;
 			memcpy(&arg_int, &buf[data_pos], sizeof(int));
 			data_pos += sizeof(int);
+			/* no field of a message is wider than the message: a larger
+			 * value (damaged input) would only make snprintf() pad for ages */
+			if (arg_int > (int)str_len) {
+				arg_int = str_len;
+			} else if (arg_int < -(int)str_len) {
+				arg_int = -(int)str_len;
+			}
 			if (arg_int < 0 && fmt[fmt_pos - 1] == '.') {
 				/* a negative precision is taken as if it were omitted */
 				fmt_pos--;
@@ -829,7 +836,9 @@ reprocess:
 			goto reprocess;
 		}
 		case 'l':
-			fmt[fmt_pos++] = *format;
+			if (fmt_pos < MINI_FORMAT_FLAGS_MAX) {
+				fmt[fmt_pos++] = *format;
+			}
 			format++;
 			type_long = QB_TRUE;
 			if (*format == 'l') {
@@ -838,7 +847,9 @@ reprocess:
 			}
 			goto reprocess;
 		case 'z':
-			fmt[fmt_pos++] = *format;
+			if (fmt_pos < MINI_FORMAT_FLAGS_MAX) {
+				fmt[fmt_pos++] = *format;
+			}
 			format++;
 			if (sizeof(size_t) == sizeof(long long)) {
 				type_long = QB_FALSE;
@@ -849,7 +860,9 @@ reprocess:
 			}
 			goto reprocess;
 		case 't':
-			fmt[fmt_pos++] = *format;
+			if (fmt_pos < MINI_FORMAT_FLAGS_MAX) {
+				fmt[fmt_pos++] = *format;
+			}
 			format++;
 			if (sizeof(ptrdiff_t) == sizeof(long long)) {
 				type_longlong = QB_TRUE;
@@ -858,7 +871,9 @@ reprocess:
 			}
 			goto reprocess;
 		case 'j':
-			fmt[fmt_pos++] = *format;
+			if (fmt_pos < MINI_FORMAT_FLAGS_MAX) {
+				fmt[fmt_pos++] = *format;
+			}
 			format++;
 			if (sizeof(intmax_t) == sizeof(long long)) {
 				type_longlong = QB_TRUE;
